@@ -272,6 +272,22 @@ proof fn lemma_hex_prefix_ascii(s: Seq<char>, n: int)
     }
 }
 //@use cursor.fns ::hex_to_bitstr
+// the hex dump printer (fmt_bitstr_dump + State::print): ASSUMED to print and return; it sees the state read-only but for stdout
+#[verifier::external_body] fn dump_bitstr(xs: &mut State, s: &Bitstr, ncols: usize) -> (r: Xresult)
+    ensures *final(xs) == (State { stdout: final(xs).stdout, ..*old(xs) })
+{ unimplemented!() }
+proof fn lemma_rev_stdout(a: State, mid: State, fin: State, n: nat)
+    requires rev_w(&a, &mid, n), rev_ext(&a, &mid, n), fin == (State { stdout: fin.stdout, ..mid })
+    ensures rev_w(&a, &fin, n), rev_ext(&a, &fin, n)
+{
+    assert(fin.mach() == mid.mach() && fin.log() == mid.log() && fin.bases() == mid.bases() && fin.rec() == mid.rec());
+    assert forall|b: State, k: nat| #[trigger] rev_w(&b, &a, k) implies rev_w(&b, &fin, k + n) by {
+        assert(rev_w(&b, &mid, k + n));
+    }
+}
+//@use cursor.fns ::dump_bitstr_at
+//@use cursor.fns ::word_dump
+//@use cursor.fns ::word_dump_at
 // the memchr crate's substring search (dependency; ASSUMED): the first occurrence, if any
 pub mod memmem {
     use super::*;
@@ -527,6 +543,8 @@ fn lemma_zero85_pair(xs: &mut State)
 //@use words.fns ::load#w_nulbytestr
 //@use words.fns ::load#w_cstr
 //@use words.fns ::load#w_hex_tobitstr
+//@use words.fns ::load#w_dump
+//@use words.fns ::load#w_dump_at
 // the data words of the word table (Rword)
 //@use words.fns ::load#w_u8
 //@use words.fns ::load#w_u8_bang
